@@ -155,7 +155,11 @@ class Unit:
 
     @property
     def physical_type(self):
-        return _dimkey(self.dims)
+        """astropy's names for the dimensions that occur here (compares equal to the name string, as astropy's PhysicalType does)"""
+        names = {(): "dimensionless", (("time", 1),): "time", (("length", 1), ("time", -1)): "speed", (("angle", 1),): "angle",
+                 (("length", 1),): "length", (("mass", 1),): "mass", (("length", 1), ("time", -2)): "acceleration"}
+        k = _dimkey(self.dims)
+        return names.get(k, k)
 
     def decompose(self):
         return self
@@ -529,6 +533,10 @@ class Time:
     def utc(self): return self._to("utc")
     @property
     def tt(self): return self._to("tt")
+    @property
+    def tdb(self): return self._to("tdb")
+    @property
+    def tai(self): return self._to("tai")
     @property
     def mjd(self): return self._v.copy() if isinstance(self._v, symnp.SymArray) else self._v      # a fresh array on every access, as in astropy
     @property
